@@ -789,3 +789,20 @@ pub fn relational_type() -> BoxedStrategy<TypeSpec> {
     ]
     .boxed()
 }
+
+/// composite liftings without union / function / enum (conversions towards unions recurse without bound in the library)
+pub fn lifted_type(depth: u32) -> BoxedStrategy<TypeSpec> {
+    if depth == 0 {
+        return cell_prim_type();
+    }
+    let inner = lifted_type(depth - 1);
+    prop_oneof![
+        50 => cell_prim_type(),
+        15 => inner.clone().prop_map(|t| TypeSpec::Optional(Box::new(t))),
+        15 => proptest::collection::vec((field_name(), inner.clone()), 0..4).prop_map(TypeSpec::Struct),
+        10 => (inner.clone(), 0i64..4, 0i64..6).prop_map(|(t, a, b)| TypeSpec::List(Box::new(t), [a.min(b), a.max(b)])),
+        5 => (inner.clone(), 0i64..3, 0i64..5).prop_map(|(t, a, b)| TypeSpec::Set(Box::new(t), [a.min(b), a.max(b)])),
+        5 => (inner, proptest::collection::vec(1usize..3, 1..3)).prop_map(|(t, s)| TypeSpec::Array(Box::new(t), s)),
+    ]
+    .boxed()
+}
